@@ -148,6 +148,8 @@ class RecvModel:
         if final_size < self.highest:
             self.degenerate = True
         self.final = final_size
+        # a reset fixes the stream length: the highest offset seen is at least the final size
+        self.highest = max(self.highest, final_size)
         self.reset = True
         return ("ok",)
 
